@@ -350,6 +350,10 @@ def run(ctx):
     rule_f(ctx, R)
     rule_g(ctx, R)
     rule_h(ctx, R)
+    if ctx.cfg == "default":
+        from ..fixtures import detectors_alive
+        ctx.rule("C17-z", "positive examples: the zero-count detectors (ambient callees, stdout, unsafe, statics, UnsafeCell, hash order) fire on fixtures/")
+        detectors_alive(ctx, "C17-z", {"denied", "stdout", "unsafe", "static", "cell", "hash"})
 
 
 def thorough(ctx):
